@@ -33,6 +33,13 @@ def run(rep, tier):
     from . import c06, c05
     common.guarded(rep, "C06.1", c06.c06_1, rep, ix, M.G)
     c05.shared_tables(rep, ix, M.G)          # values come from tables that hold only this load's data
+    # "arguments equal to the values of the written expressions": the evaluator's operator table (shared with C03)
+    from . import c03
+    rep.rule("C03.3", "operator table of the evaluator (shared with C03)", floor=8)
+    br = common.guarded(rep, "C03.2", c03.c03_2, rep, ix, M)
+    if br:
+        common.guarded(rep, "C03.3", c03.c03_3, rep, ix, M, cc, br)
+    common.guarded(rep, "C02.7", c02_7, rep, ix, M)
     common.guarded(rep, "C02.6", c02_6, rep, ix)      # loop bodies execute only in the replay: one entry per executed statement
 
 
@@ -238,7 +245,7 @@ def c02_2(rep, ix):
     }
     for h, (tgt, src) in want.items():
         f = ix.func("%s.%s" % (LISTENER, h))
-        st = [n for n in walk_shallow(f.node) if isinstance(n, ast.Assign) and u(n.targets[0]) == tgt]
+        st = [n for n in walk_shallow(f.node) if isinstance(n, ast.Assign) and resolved_text(f.node, n.targets[0], n) == tgt]
         ok = len(st) == 1 and resolved_text(f.node, st[0].value, st[0]) == src and st[0] in f.node.body
         rep.check(ok, R, ix.site(f, st[0]) if st else ix.site(f), "%s stores %s = %s (unmodified token text, unconditionally)" % (h, tgt, src),
                   "stores `%s`" % (u(st[0].value) if st else None), key=h)
@@ -372,6 +379,78 @@ def c02_4(rep, ix):
     ms = [a for a in walk_shallow(fn) if isinstance(a, ast.Assign) and u(a.targets[0]) == "modes"]
     okm = len(ms) == 1 and " ".join(u(ms[0].value).split()) in ("[m for m in ctx.arrayrow().getChildren() if m.getText() != ',']", "ctx.arrayrow().expression()", "list(ctx.arrayrow().expression())")
     rep.check(okm, R, ix.site(f, ms[0]) if ms else ix.site(f), "the mode list is the expression children of arrayrow in source order", "got `%s`" % (u(ms[0].value) if ms else None), key="modes list")
+
+
+# ---------------------------------------------------------------------------------------- C02.7 non-numeric literals
+def c02_7(rep, ix, M, R="C02.7"):
+    rep.rule(R, "non-numeric literals are read by token kind first: a STR token yields its text without the quotes whatever that text is, a BOOL token yields True / False", floor=3)
+    from ..py.terms import TermEval, show
+    from .c03 import token_paths
+    f = ix.func("auxiliary._literal")
+    p = f.params[0]
+    te = TermEval(ctxvar="__none__")
+    paths = te.paths(f.node.body, {})
+    # every value-returning path is under a token-kind test as its FIRST condition
+    for conds, t, env in paths:
+        if t in ("RAISE", "FALL"):
+            continue
+        kinds = ("%s.STR()" % p, "%s.BOOL()" % p, "%s.STR() is not None" % p, "%s.BOOL() is not None" % p)
+        lead = []
+        for c_, v_ in conds:
+            lead.append((c_, v_))
+            if v_:
+                break
+        first = lead[-1][0] if lead else ""
+        ok = bool(lead) and lead[-1][1] and all(c_ in kinds for c_, v_ in lead)
+        rep.check(ok, R, ix.site(f), "the value %s is returned only after the token kind has been tested first" % show(t),
+                  "first condition on this path is `%s`: a string whose text looks like another literal is read as that literal" % first, key="literal|first|" + show(t)[:40])
+    tp = token_paths(paths, p)
+    text = ("method", ("name", p), "getText", (), ())
+    strs = [t for k, lst in tp.items() if k[:1] == ("STR",) for conds, t in lst if t not in ("RAISE", "FALL")]
+    good_str = [("cast", "str", ("method", text, "replace", (("const", '"'), ("const", "")), ())), ("method", text, "replace", (("const", '"'), ("const", "")), ()),
+                ("index", text, ("opaque", "1:-1"))]
+    rep.check(len(strs) == 1 and (strs[0] in good_str or show(strs[0]) in ("index(method(%s, getText, (), ()), 1:-1)" % p,)), R, ix.site(f),
+              "a STR token yields its text with the quotes removed", "returns %s" % [show(t) for t in strs], key="literal|STR")
+    # BOOL: the token language is finite (read from the grammar); interpret the reader on each word
+    from ..py.guards import run_block, AEval, ModelError
+    words = sorted(bool_words(M))
+    for w in words:
+        def atom(node, w=w):
+            t = " ".join(u(node).split())
+            if t == "%s.getText()" % p:
+                return w
+            if t == "%s.BOOL()" % p:
+                return "BOOL-token"
+            if t == "%s.STR()" % p:
+                return None
+            return AEval.NO
+        try:
+            r = run_block(f.node.body, atom)
+        except ModelError as e:
+            r = ("raise", str(e))
+        rep.check(r[0] == "return" and isinstance(r[1], bool) and r[1] == (w == "True"), R, ix.site(f), "the BOOL token `%s` yields %s" % (w, w == "True"),
+                  "the reader gives %s" % (r,), key="literal|BOOL|" + w)
+
+
+def bool_words(M):
+    """the (finite) language of the BOOL lexer rule, from the grammar: alternatives that are single literals"""
+    from ..gram.g4 import Lit, Alt, Seq
+    r = M.G.R.get("BOOL")
+    if r is None:
+        raise Inconclusive("the grammar has no BOOL token")
+
+    def words(node):
+        if isinstance(node, Lit):
+            return {node.text}
+        if isinstance(node, Alt):
+            return set().union(*[words(a) for a in node.alts])
+        if isinstance(node, Seq):
+            out = {""}
+            for it in node.items:
+                out = {a + b for a in out for b in words(it)}
+            return out
+        raise Inconclusive("BOOL is no longer a finite set of literals")
+    return words(r.body)
 
 
 # ---------------------------------------------------------------------------------------- C02.6 extracted values are not rewritten
